@@ -28,6 +28,8 @@ pub fn plan(tier: Tier) -> Plan {
         ("tiny", 8, 11),
         ("large", 8, 11),
         ("tiny20", 7, 10),
+        ("offbig", 7, 9),
+        ("offsmall", 7, 9),
         ("large25", 7, 10),
     ];
     for (a, q, t) in alphas {
